@@ -468,13 +468,16 @@ class ArgumentParser:
             if path not in args.system_include_paths
         ] + args.system_include_paths
 
-        # Construct final list of active modes.
-        args.modes = set(args.modes)
+        # Construct final list of active modes (in command-line order, so that
+        # the result does not depend on string hashing).
+        args.modes = list(dict.fromkeys(args.modes))
 
         # Construct final list of active passes.
-        args.passes = set(args.passes)
-        args.passes |= set(chain(*args._passes.values()))
-        args.passes |= {"default"}
+        args.passes = list(
+            dict.fromkeys(
+                ["default", *args.passes, *chain(*args._passes.values())],
+            ),
+        )
 
         # Convert the arguments into a list of preprocessor configurations.
         configurations = []
